@@ -8,5 +8,5 @@ if diff -q /repo/$2 $D/$2 >/dev/null; then echo "MUTATION DID NOT CHANGE $2"; rm
 diff /repo/$2 $D/$2
 shift 2
 (cd $D && GOFLAGS=-mod=mod GOPROXY=off GOSUMDB=off GOTOOLCHAIN=local go build ./... 2>&1 | head -5)
-/verif/bin/rtv func -repo $D -t ${T:-20} "$@" 2>&1 | grep -v ' unsat \| sat ' | tail -${N:-15}
+/verif/bin/rtv func -repo $D -t ${T:-20} "$@" 2>&1 | grep -v '^   ok ' | tail -${N:-15}
 rm -rf $D
